@@ -418,6 +418,15 @@ def _witness(ctx):
     n = lens[0][0]
     for k in range(0, n, max(1, n // 60)):
         run_schedule(ctx, "self-recursive-same", S.single_preemption(0, k, 1), "directed-single-preemption", start=0, params=(0, k))
+    # every line of the guarded search function itself (lock, search, cleanup after a failure), of every retort involved, in the failing
+    # thread: the other thread's whole request is placed there (seeded change, found three times: the cache was cleared after the lock had been released; at seed 1 no random
+    # schedule hit that window of two lines)
+    for j in range(400):
+        pol = S.preemption_inside(0, "_provide_from_recipe", j, 1)
+        run_schedule(ctx, "failing-request-vs-success", pol, "directed-preemption-inside-the-guarded-search", start=0, params=(0, j))
+        if not pol.fired:
+            break
+    ctx.count("guarded_search_preemption_points", j)
 
 
 def _guard_does_not_change_what_a_retort_is(ctx):
